@@ -367,7 +367,7 @@ func main() {
 	runner.Main(runner.Config{
 		ID:    "C15",
 		Level: "model_checking",
-		Rule:  "stateless model checking of the real differ (WritePatch: diff, sign and reader goroutines over pipes), of the bsdiff scanner (workers, dispatcher, collector) and of the optimizer under a controlled scheduler: preemption-bounded DFS with happens-before caching over goroutine interleavings, select choices, map iteration orders and source-reader short reads; oracle: output bytes (patch, signature, counters / control messages / optimized patch and mappings) equal those of the default schedule, no deadlock. Separate detector pass: the same bodies free-running under the Go race detector with GOMAXPROCS 1,2,4,16. Non-trivial = scenario with at least 3 goroutines alive at once.",
+		Rule:  "stateless model checking of the real differ (WritePatch: diff, sign and reader goroutines over pipes), of the bsdiff scanner (workers, dispatcher, collector) and of the optimizer under a controlled scheduler: preemption-bounded DFS with happens-before caching over goroutine interleavings, select choices, map iteration orders and source-reader answers (short reads, io.EOF together with the last bytes, and - in dedicated scenarios - a read error, under which every schedule must make the diff fail); oracle: output bytes (patch, signature, counters / control messages / optimized patch and mappings) equal those of the default schedule, no deadlock. Separate detector pass: the same bodies free-running under the Go race detector with GOMAXPROCS 1,2,4,16. Non-trivial = scenario with at least 3 goroutines alive at once.",
 		Assumptions: []string{
 			"code between visible operations is atomic under the scheduler; unsynchronised accesses are only caught by the race-detector pass, which is a detector, not an enumeration",
 			"io.Pipe is modelled atomically (a Write blocks until consumed or closed), all other primitives at their real call sites",
